@@ -115,6 +115,20 @@ theorem set_item_src : set_item_args = "key, toCacheItem(cachedResp, cr.host), e
 /-- A refresh clears the location caches: afterwards `Data` answers from the new readers only. -/
 theorem refresh_clears_src : refresh_clears = "f.hostCache.Clear,f.ipCache.Clear" := by decide
 theorem refresh_readers_src : refresh_readers_rhs = "asn, country" := by decide
+/-- Wave h: the caches are cleared AFTER the write lock has been taken (the unlock is deferred right
+after it), which is after the new files have been read and the subnet maps rebuilt — the refresher
+program `Agd.ECS.Refresh.codeProg`; the translated source (`Tie/TrC05.lean`: `refresh_success_trace`)
+says the same about every run. -/
+theorem refresh_order_src :
+    refresh_order =
+      "geoIPFromFile,geoIPFromFile,f.resetSubnetMappings,f.mu.Lock,f.mu.Unlock,f.hostCache.Clear,f.ipCache.Clear" := by
+  decide
+/-- `Data` probes the cache before taking the read lock; the look-ups in the readers AND `setCaches`
+come after `RLock` (the `RUnlock` is deferred right after it): the `fill` step of the machine is atomic
+with respect to the refresher's critical section. -/
+theorem data_lock_order_src :
+    data_lock_order = "f.ipCache.Get,f.mu.RLock,f.mu.RUnlock,f.lookupASN,f.setCtry,f.setCaches" := by decide
+theorem set_caches_calls_src : set_caches_calls = "f.ipCache.Set,f.hostCache.Set" := by decide
 /-- Networks without a country never enter the country maps (`GeoDB.ctryMap`). -/
 theorem ctry_scan_src :
     ctry_scan_conds = "err != nil | c == CountryNone | subnet.Addr().Is4() | err != nil" := by decide
